@@ -13,7 +13,7 @@ func calcSizeFromValue(val int) int {
 	}
 
 	for i := 0; i < maxSize; i++ {
-		if val < 1<<i {
+		if uint64(val) < uint64(1)<<i {
 			return i
 		}
 	}
